@@ -257,6 +257,7 @@ func bfs(family string, fresh func() seqSystem, prefix []string, maxDepth int, m
 		for _, nd := range frontier {
 			if seqExpired() || (maxStates > 0 && res.states >= maxStates) {
 				rep.Truncated = true
+				rep.family(fmt.Sprintf("bfs-runs-capped-while-expanding-depth-%d", depth+1), 1)
 				rep.States += res.states
 				rep.Transitions += res.transitions
 				return res
@@ -295,8 +296,10 @@ func bfs(family string, fresh func() seqSystem, prefix []string, maxDepth int, m
 		res.maxDepth = depth + 1
 	}
 	res.closed = len(frontier) == 0
-	if !res.closed {
-		// frontier states at maxDepth are counted but not expanded
+	if res.closed {
+		rep.family("bfs-runs-closed-(fixed-point)", 1)
+	} else {
+		rep.family(fmt.Sprintf("bfs-runs-complete-to-depth-%d", maxDepth), 1)
 	}
 	rep.States += res.states
 	rep.Transitions += res.transitions
